@@ -108,19 +108,17 @@ def gen_call(rng, callee, params, vars_, wrong=None, modes_from=None, loopvar=No
 def spell(rng, from_dir, target, allow_abs=True, fs=None):
     k = rng.random()
     rel = posixpath.relpath(target, from_dir or ".")
-    if fs is not None and fs.links and rng.random() < 0.25:
-        # a spelling that goes through a symbolic link to a directory (and back out of it)
+    if fs is not None and fs.links and rng.random() < 0.25 and link_safe(fs, target):
+        # a spelling that goes DOWN through a symbolic link to a directory.  '..' is never
+        # written after the link component, and the file reached this way (and everything
+        # it includes) has no '..' in its own include lines: how '..' behaves once a link
+        # has been crossed is a question of path syntax that the statement of C07 does not
+        # settle (the OS applies it to the link's target, textual normalisation to the link's
+        # parent), so only spellings on which both readings agree are generated.
         for lp, tdir in sorted(fs.links.items()):
             rel_link = posixpath.relpath(lp, from_dir or ".")
-            parent = posixpath.dirname(tdir)
-            cand = None
             if target.startswith(tdir + "/"):
                 cand = rel_link + "/" + posixpath.relpath(target, tdir)
-            elif parent and target.startswith(parent + "/"):
-                cand = rel_link + "/../" + posixpath.relpath(target, parent)
-            elif not parent:
-                cand = rel_link + "/../" + target
-            if cand:
                 try:
                     if M.walk(fs, from_dir, cand) == target:
                         return cand
@@ -136,6 +134,24 @@ def spell(rng, from_dir, target, allow_abs=True, fs=None):
         back = posixpath.relpath(".", from_dir or ".")
         return posixpath.join(back, d, "..", target) if back != "." else posixpath.join(d, "..", target)
     return rel
+
+
+def link_safe(fs, path, seen=()):
+    """True if neither this file nor anything it includes (transitively) has a relative
+    include line containing '..' (see spell())."""
+    prog = fs.files.get(path)
+    if not isinstance(prog, dict) or path in seen:
+        return False
+    for sp in prog["includes"]:
+        if not sp.startswith("<ROOT>/") and ".." in sp.split("/"):
+            return False
+        try:
+            t = M.resolve(fs, posixpath.dirname(path), sp)
+        except M.Unknown:
+            return False
+        if not link_safe(fs, t, seen + (path,)):
+            return False
+    return True
 
 
 def gen_body(rng, fs, own_params, callees, modes_pool, top=False):
@@ -232,7 +248,7 @@ def gen_plan(rng):
     # main file
     maindir = rng.choice(DIRS)
     if link and rng.random() < 0.6:
-        maindir = rng.choice([link["target"], posixpath.dirname(link["target"])])
+        maindir = link["target"]
     mainpath = posixpath.join(maindir, "main.xbb")
     direct = rng.sample(libs, rng.randint(1, len(libs)))
     if rng.random() < 0.7 and libs[-1] not in direct:
@@ -267,7 +283,7 @@ def gen_plan(rng):
         cands = []
         for (fdir, sp, tgt, name, nm) in edges:
             base = posixpath.basename(tgt)
-            for cwd in set(cwds) | {maindir}:
+            for cwd in sorted(set(cwds) | {maindir}):
                 if cwd == "/":
                     continue
                 if not sp.startswith("<ROOT>"):
@@ -321,19 +337,15 @@ def gen_plan(rng):
             st.update({"op": "load", "path": mainpath, "style": style})
             if style == "rel" and rng.random() < 0.3:
                 st["dot"] = True
-            if link and rng.random() < 0.6:
-                # name the main file through the link: <link>/main.xbb or <link>/../main.xbb
-                name = None
-                if maindir == link["target"]:
-                    name = link["path"] + "/main.xbb"
-                elif maindir == posixpath.dirname(link["target"]):
-                    name = link["path"] + "/../main.xbb"
-                if name:
-                    try:
-                        if M.walk(fs, "", name) == mainpath:
-                            st["name"] = name
-                    except M.Unknown:
-                        pass
+            if link and rng.random() < 0.6 and maindir == link["target"] and link_safe(fs, mainpath):
+                # name the main file through the link (<link>/main.xbb); see spell() for why
+                # '..' never follows the link and why the file must be "link safe"
+                name = link["path"] + "/main.xbb"
+                try:
+                    if M.walk(fs, "", name) == mainpath:
+                        st["name"] = name
+                except M.Unknown:
+                    pass
         if cfg["faults"] and rng.random() < 0.6:
             files = [p for p, v in fs.files.items() if isinstance(v, dict)]
             if style == "loads":
@@ -487,8 +499,13 @@ def run(plan, ctx):
         if fault:
             what = fault["what"]
             bump("fault_configured:" + what)
+            on_include = posixpath.normpath(fault["path"]) != mainpath
+            if on_include:
+                bump("fault_configured:any_kind_on_an_included_file")
             if fired:
                 bump("fault_fired:" + what)
+                if on_include:
+                    bump("fault_fired:any_kind_on_an_included_file")
                 klass = "faulted"
                 fp = posixpath.normpath(fault["path"])
                 if what == "tear":
@@ -499,7 +516,9 @@ def run(plan, ctx):
                     else:
                         tp["body"] = tp["body"][:fault["after_item"]]
                         f2.files[fp] = tp
-                        accept = [M.expected(f2, mainpath)]
+                        # the program for the bytes actually delivered - or an error (an
+                        # implementation may notice that the read came up short)
+                        accept = [M.expected(f2, mainpath), ("raise", "torn file")]
                 elif what == "flip":
                     accept = [("raise", "undecodable byte"), want_free]
                 else:
@@ -604,9 +623,13 @@ def effectiveness(total, tier):
     need = ["probe:subroutine_called_repeatedly", "probe:relative_include_with_cwd_elsewhere",
             "probe:mode_set_order_differs_from_sorted", "decoys_written", "outcome:equals_model"]
     if total.get("loads", 0) > 2000:
-        missing = [k for k in need if not total.get(k)]
-        if missing:
-            return "reach probes stuck at zero: %s" % missing
+        problems = ["reach probe stuck at zero: " + k for k in need if not total.get(k)]
+        for k, v in total.items():
+            if k.startswith("fault_configured:") and v >= 30 and not total.get("fault_fired:" + k.split(":", 1)[1]):
+                problems.append("fault kind %s was configured %d times and never fired" % (k.split(":", 1)[1], v))
+        if total.get("model_unknown", 0) > 0.2 * total["loads"]:
+            problems.append("the model could not decide %d of %d loads" % (total["model_unknown"], total["loads"]))
+        return "; ".join(problems) or None
     return None
 
 
